@@ -350,10 +350,19 @@ def explore_send(F, f):
     def res_calls_of(op):
         return {r.block for r in tr.roots_of_operand(op) if r.kind == "call" and r.block in fall}
 
+    headers = set(f.loop_headers())
+
     # state: (pending call block or None, enobufs, downsized, attempted_since_err)
     def step(b, st, env):
         pend, enob, down = st
         t = f.term(b)
+        if b in headers and pend is not None:
+            # taking the back edge with an error pending is the retry
+            if not (enob is True and down is True):
+                problems.setdefault(("SEND-PROP", "continues-after-error", "%s->loop enobufs=%s downsized=%s" % (fall[pend], enob, down)), b)
+            else:
+                stats["retry_edges"] += 1
+            pend, enob, down = None, None, None
         if pend is not None and pos is not None:
             for s in f.stmts(b):
                 if s["s"] == "assign" and not s["lhs"].get("p") and s["lhs"]["l"] == pos:
